@@ -178,6 +178,39 @@ def system_search(run, rnd, dates, n_pops):
                 pass
             elterngeld_cap(run, res, params, date, rep)
         supplied_counts_search(run, rnd, date, max(4, n_pops // 3))
+        # directed: pensioners who work (earnings deducted from the pension above the additional-earnings limit):
+        # early and regular retirees, small and large wages, with and without a high former wage
+        for wage in (0.0, 600.0, 2500.0, 9000.0):
+            for former in (0.0, 30000.0, 250000.0):
+                p = popgen.Pop(rnd, date)
+                h = p.new_hh()
+                x = p.person(h, rnd.choice([61, 63, 64, 65, 67, 70]))
+                df = p.frame(relabel=False, shuffle=False).copy()
+                df["rentner"] = True
+                df["bruttolohn_m"] = wage
+                df["selbstständig"] = False
+                df["arbeitsstunden_w"] = 38.0 if wage else 0.0
+                if "höchster_bruttolohn_letzte_15_jahre_vor_rente_y" in df.columns:
+                    df["höchster_bruttolohn_letzte_15_jahre_vor_rente_y"] = former
+                y = int(date[:4])
+                df["geburtsjahr"] = y - int(df["alter"].iloc[0])
+                df["jahr_renteneintr"] = y - rnd.choice([0, 1, 2])
+                ok, res = run.attempt(f"working pensioner at {date}", popgen.simulate_all, df, date,
+                                      replay={"date": date, "data": popgen.frame_to_json(df)})
+                if not ok:
+                    continue
+                run.case({"date": date, "working-pensioner": [wage, former, int(df["alter"].iloc[0])]})
+                rep = {"date": date, "data": popgen.frame_to_json(df)}
+                for c in res.columns:
+                    v = res[c].to_numpy()
+                    if v.dtype.kind == "f" and not np.isfinite(v).all():
+                        run.hit({"kind": "non-finite", "node": c}, f"{c} at {date} is not finite for a working pensioner", {**rep, "node": c})
+                for t in DEFAULT_TARGETS:
+                    v = res[t].to_numpy()
+                    if (v < -1e-9).any():
+                        run.hit({"kind": "negative-target", "node": t},
+                                f"default target {t} at {date} is {v.min()} for a pensioner aged {int(df['alter'].iloc[0])} who earns "
+                                f"{wage} (highest former wage {former})", {**rep, "node": t})
         # directed: families in which every bonus of Elterngeld applies, claimant's prior income far above the cap
         for income in (2771.0, 4000.0, 20000.0, 1.0e6):
             p = popgen.Pop(rnd, date)
